@@ -76,7 +76,7 @@ fn rv_canon(v: &ReplicatedValue) -> String {
         Value::Null => "None".to_string(),
         x => format!("(Some {})", pairs(&num_map(&x["clocks"]))),
     };
-    format!("(V {} {} {} {} {} {})", crdt_term(&j["crdt"]), vc, copt(&v.expiry_ms, |e| e.to_string()), v.timestamp.time, v.timestamp.replica_id.0, copt(&v.replication_factor, |e| e.to_string()))
+    format!("(V {} {} {} {} {} {})", vharness::rv::crdt_term_of(v, false), vc, copt(&v.expiry_ms, |e| e.to_string()), v.timestamp.time, v.timestamp.replica_id.0, copt(&v.replication_factor, |e| e.to_string()))
 }
 fn delta_canon(d: &ReplicationDelta) -> String {
     format!("{}|{}|{}", hex(d.key.as_bytes()), rv_canon(&d.value), d.source_replica.0)
